@@ -77,7 +77,16 @@ impl HttpConnector for TapClient {
             };
             // the same body type s3s-aws hands to the service
             let s3s_req = http::Request::from_parts(parts, s3s::Body::http_body(SdkBody::from(bytes)));
-            let resp = this.svc.call(s3s_req).await.map_err(|e| conn_err(format!("verif: service error: {e:?}")))?;
+            let called = futures::FutureExt::catch_unwind(std::panic::AssertUnwindSafe(this.svc.call(s3s_req))).await;
+            let resp = match called {
+                Ok(x) => x.map_err(|e| conn_err(format!("verif: service error: {e:?}")))?,
+                Err(p) => {
+                    // a panic below S3Service::call: recorded as a response with status 0
+                    let msg = crate::core::panic_message(&p);
+                    this.tap.0.lock().unwrap()[idx].1 = Some(RawResponse { status: 0, headers: Vec::new(), frames: Vec::new(), trailers: None, body_error: Some(format!("PANIC: {msg}")) });
+                    return Err(conn_err(format!("verif: PANIC below S3Service::call: {msg}")));
+                }
+            };
             let (rparts, mut rbody) = resp.into_parts();
             let mut rr = RawResponse {
                 status: rparts.status.as_u16(),
